@@ -53,7 +53,12 @@ class LxmlEventHandler(XmlHandler):
                 load_dtd=self.parser.config.load_dtd,
             )
 
-        return self.process_context(ctx, ns_map)
+        try:
+            return self.process_context(ctx, ns_map)
+        except UnicodeDecodeError as e:
+            # The recovering parser keeps character references to surrogates,
+            # the content of such a node can't be read
+            raise ParserError(e)
 
     def process_context(
         self,
